@@ -345,6 +345,55 @@ func interfere(action string, pid gen.PID, r *result) {
 	}
 }
 
+// Kill lands after ProcessRun returned (runner parked at tosleep); the runner is then parked
+// again right before it finalizes the kill (proc.run.term.kill) and a sender tries to wake
+// the process in that window: nothing may be handled beside / after the termination
+func runKillAtSleepThenSend(kind string, n int) {
+	id := fmt.Sprintf("D/%s/tosleep-kill/termkill-send/%d", kind, n)
+	if !hk.Want(id) {
+		return
+	}
+	r := &result{}
+	pid, inst, err := spawnKind(kind, id)
+	if err != nil {
+		return
+	}
+	hk.WaitUntil(5*time.Second, func() bool { return hk.LiveRunners(pid) == 0 })
+	g1 := hk.Park("proc.run.tosleep", hk.Eq(pid), false)
+	g2 := hk.Park("proc.run.term.kill", hk.Eq(pid), false)
+	node.Send(pid, work{ID: 1})
+	fired := false
+	if g1.WaitArrived(5 * time.Second) {
+		node.Kill(pid)
+		g1.Release()
+		if g2.WaitArrived(5 * time.Second) {
+			fired = true
+			var wg sync.WaitGroup
+			for k := 0; k < n; k++ {
+				wg.Add(1)
+				go func(k int) { defer wg.Done(); node.Send(pid, work{ID: 100 + uint64(k), Spin: 200}) }(k)
+			}
+			wg.Wait()
+			// give a wrongly started second runner the chance to enter a callback
+			hk.WaitUntil(20*time.Millisecond, func() bool { return inst.InCallback() })
+		} else {
+			r.incon = "gate: term.kill never reached"
+		}
+		g2.Release()
+	} else {
+		r.incon = "gate: tosleep never reached"
+		g1.Release()
+		g2.Release()
+	}
+	if g1.TimedOut() || g2.TimedOut() {
+		r.incon = "gate: released by deadline"
+	}
+	hk.WaitUntil(5*time.Second, func() bool { return inst.TermCount.Load() > 0 && !inst.InCallback() && hk.LiveRunners(pid) == 0 })
+	checkInst(inst, r)
+	finish(id, "directed", id, fired, int64(len(inst.Events())), r, map[string]any{"events": fmt.Sprint(inst.Events())})
+	node.Kill(pid)
+}
+
 // two wakers racing at the wake-up CAS
 func runWakeRace(kind string, n int) {
 	id := fmt.Sprintf("D/%s/wake-race/%d", kind, n)
@@ -717,6 +766,9 @@ func main() {
 		}
 		for _, n := range []int{2, 3, 8} {
 			runWakeRace(kind, n)
+		}
+		for _, n := range []int{1, 2, 4} {
+			runKillAtSleepThenSend(kind, n)
 		}
 	}
 	runKillInCall(false)
